@@ -82,8 +82,9 @@ def get_evaluable_architecture(
             convert_partial_match_to_regex(pattern) for pattern in external_exclusions
         )
 
-    root_as_path = Path(root_path)
-    module_as_path = Path(module_path)
+    # '..' components are resolved first: otherwise a module path outside of the root path would not be recognised as such
+    root_as_path = Path(os.path.normpath(root_path))
+    module_as_path = Path(os.path.normpath(module_path))
 
     path_diff_between_root_and_module = str(
         module_as_path.relative_to(root_as_path)
